@@ -27,6 +27,12 @@ def wrapper_lines(rng, n):
     rng.shuffle(w)
     return [(l, {'kind': 'wrapper'}) for l in w[:n]]
 
+def search_lines(rng, n=None):
+    w = gen.search_lines(vocab())
+    if n is not None and n < len(w):
+        rng.shuffle(w); w = w[:n]
+    return [(l, {'kind': 'search'}) for l in w]
+
 def byte_lines(rng, base, n):
     return [(l, {'kind': 'bytes'}) for l in gen.bytes_mutations(rng, base, n)]
 
